@@ -862,6 +862,24 @@ def gen_C10(rng, tier):
 
 def gen_C11(rng, tier):
     out = []
+    # directed: a coarser cache that is LONGER in bytes than a finer one (it needs a
+    # section per line): sparse source, neighbouring bucket sizes
+    for p, caches, step, count in [(0, [2, 3], 30000, 120), (4, [3, 4], 0, 0), (2, [2, 3, 4], 25000, 90)]:
+        h = Hist(p, caches=caches)
+        h.new()
+        if count:
+            h.pushrun(5, step, count, 3)
+        else:
+            for t in [1000, 2000, 3000, 4000, 5000, 6000, 300000, 400000]:
+                h.push(t, rng)
+        if marker_free(p, h.ts):
+            vals = h.critical_values()
+            for n in [1, 2, 3, 10]:
+                h.op(f"read_n n={n} s=U e=U")
+                h.op(f"read_n n={n} s={bound('I', rng.choice(vals))} e=U")
+            h.reopen()
+            h.op("read_n n=2 s=U e=U")
+            out.append((f"coarser-longer-p{p}", h.script()))
     nh = 12 if tier == "quick" else 120
     for i in range(nh):
         p = rng.choice([0, 2, 4, 8])
